@@ -59,7 +59,7 @@ def check(pid, props, alt=False):
     if alt:
         # evaluate in a fresh scratch worktree of /repo's HEAD with the patch applied, through RB_REPO
         # (used while /repo's working tree is not clean; nothing is ever applied to /repo this way)
-        wt = "/tmp/seedwt_%s" % pid
+        wt = "/tmp/seedwt_%s_%d" % (pid, os.getpid())
         sh("git -C /repo worktree remove --force %s" % wt)
         shutil.rmtree(wt, ignore_errors=True)
         rc, o = sh("git -C /repo worktree add --detach %s HEAD" % wt)
@@ -110,6 +110,8 @@ def check(pid, props, alt=False):
         elif wt:
             sh("git -C /repo worktree remove --force %s" % wt)
             shutil.rmtree(wt, ignore_errors=True)
+            import hashlib
+            shutil.rmtree(os.path.join(HERE, ".build", "alt", hashlib.sha1(wt.encode()).hexdigest()[:10]), ignore_errors=True)
     return results
 
 
